@@ -39,6 +39,9 @@ def main(run):
         src = core.to_ferret(p)
         run.case(src, True, {"program": src, "native": a.get("out", "")[:120], "wasm": b.get("out", "")[:120]} if i < 2 else None)
         observed.append(core.parse_output(a["out"]) if a.get("rc") == 0 else None)
+        if c01.known_crash_key(a["panic"]) or c01.known_crash_key(b["panic"]):
+            run.count("skipped:known-compiler-crash")
+            continue
         if not (a["accepted"] and b["accepted"]):
             run.count("not-accepted-by-both")
             # FerretCore programs use nothing the wasm runtime lacks: a one-sided rejection is itself a disagreement
